@@ -291,6 +291,26 @@ func (agc *AggregatorContext) PrepareRoundEndBlock(block uint64) (newRoundFeeder
 }
 
 // SetParams sets the params field of aggregatorContext“
+// CloseFinalizedRounds closes every open round whose price has already been stored. It is used
+// when the context is rebuilt from the store after a restart: the messages that finalized a
+// round are not kept in the recent-message cache, so replaying the cache alone would leave such
+// a round open and it would be failed (and its price carried forward once more) at window end.
+func (agc *AggregatorContext) CloseFinalizedRounds(nextRoundID func(tokenID uint64) uint64) {
+	for feederID, round := range agc.rounds {
+		if round.status != roundStatusOpen {
+			continue
+		}
+		feeder := agc.params.GetTokenFeeder(feederID)
+		if feeder == nil {
+			continue
+		}
+		if nextRoundID(feeder.TokenID) > round.nextRoundID {
+			round.status = roundStatusClosed
+			delete(agc.aggregators, feederID)
+		}
+	}
+}
+
 func (agc *AggregatorContext) SetParams(p *types.Params) {
 	agc.params = p
 }
